@@ -6,6 +6,7 @@ from fractions import Fraction as Fr
 
 import torch
 
+from agg_common import refill_history
 from aggs import catalogue, vec
 from common import Ctx, classify_exc, field
 from matrices import m_adv, ulp
@@ -181,6 +182,14 @@ def totality(ctx: Ctx, spec, dtype):
             ctx.violation(f"{spec.name}: an instance that was first called on a {dtype} matrix gives "
                           f"{'error ' + str(xo) if so != 'ok' else 'a different result'} on a {O.dtype} matrix with the same "
                           f"number of rows, unlike a fresh instance (result depends on earlier calls)", rp)
+            return False
+    if m >= 2 and not spec.solver:
+        J2 = (J.flip(0) * 1.5).contiguous()
+        how = rng.choice(["numpy", "data"])
+        msg = refill_history(lambda: spec.make(m, dtype, pv), J, J2, seed, how)
+        ctx.count("refill_history", how)
+        if msg is not None:
+            ctx.violation(f"{spec.name}: {msg} (the result depends on an earlier call)", {**rp, "check": "refill history", "how": how})
             return False
     torch.manual_seed(seed)
     st2, x2 = attempt(A, J)
